@@ -176,6 +176,27 @@ def typesComparable (l r : Value) : Bool :=
   | .real _, .int _ => true
   | _, _ => l.valueType == r.valueType
 
+/-- the text of a TEXT operand compared with a TIMESTAMP is parsed as a timestamp -/
+def tsOfText (O : Oracles) (s : Bytes) : Outcome Value := do
+  let p ← parseLit O .timestamp s
+  match p with
+  | some v => pure v
+  | none => Outcome.error .failedToParseTimestamp
+
+/-- first half of `comparable_operands`: text compared with a timestamp is parsed as a timestamp -/
+def coerceTs (O : Oracles) (lv rv : Value) : Outcome (Value × Value) :=
+  match lv, rv with
+  | .timestamp _ _ _, .text s => (tsOfText O s).bind (fun v => .ok (lv, v))
+  | .text s, .timestamp _ _ _ => (tsOfText O s).bind (fun v => .ok (v, rv))
+  | _, _ => .ok (lv, rv)
+
+/-- `comparable_operands`: what `Compare` and each member test of `In` do to their two operands before comparing —
+text compared with a timestamp is parsed as a timestamp, and two non-NULL operands must then be of one type (INT with
+REAL allowed) -/
+def prepCompare (O : Oracles) (lv rv : Value) : Outcome (Value × Value) :=
+  (coerceTs O lv rv).bind (fun p =>
+    if !p.1.isNull && !p.2.isNull && !typesComparable p.1 p.2 then Outcome.error .typeError else .ok p)
+
 def tsTotal (d s f : Int) : Int := (d * 86400 + s) * nsPerSec + f
 def tsOfTotal (t : Int) : Value :=
   let secs := t / nsPerSec
@@ -453,21 +474,8 @@ def eval (O : Oracles) (env : Env) : Expr → Outcome Value
   | .compare op l r => do
     let lv ← eval O env l
     let rv ← eval O env r
-    let (lv, rv) ← (match lv, rv with
-      | .timestamp _ _ _, .text s => do
-        let p ← parseLit O .timestamp s
-        match p with
-        | some v => pure (lv, v)
-        | none => Outcome.error .failedToParseTimestamp
-      | .text s, .timestamp _ _ _ => do
-        let p ← parseLit O .timestamp s
-        match p with
-        | some v => pure (v, rv)
-        | none => Outcome.error .failedToParseTimestamp
-      | _, _ => pure (lv, rv) : Outcome (Value × Value))
-    if !lv.isNull && !rv.isNull then
-      if typesComparable lv rv then pure (.bool (applyCmp op (compareValues lv rv)))
-      else Outcome.error .typeError
+    let (lv, rv) ← prepCompare O lv rv
+    if !lv.isNull && !rv.isNull then pure (.bool (applyCmp op (compareValues lv rv)))
     else pure (.bool false)
   | .nullCmp isNot l r => do
     let lv ← eval O env l
@@ -526,14 +534,19 @@ def evalList (O : Oracles) (env : Env) : List Expr → Outcome (List Value)
     let v ← eval O env e
     let vs ← evalList O env es
     pure (v :: vs)
-/-- `In`: first equal non-NULL member decides; otherwise NOT IN is true only when no NULL was involved -/
+/-- `In`: the first member equal to the operand (compared like `=`) decides; otherwise NOT IN is true only when no NULL
+was involved; a member that `=` could not compare with the operand (another type, unparsable timestamp text) is an error -/
 def evalIn (O : Oracles) (env : Env) (isNot : Bool) (v : Value) (anyNull : Bool) : List Expr → Outcome Value
   | [] => .ok (.bool (isNot && !anyNull))
   | e :: es => do
     let x ← eval O env e
     if x.isNull then evalIn O env isNot v true es
-    else if compareValues v x == .eq then pure (.bool (!isNot))
-    else evalIn O env isNot v anyNull es
+    else if v.isNull then evalIn O env isNot v anyNull es
+    else do
+      -- each member is compared like `=` does
+      let (a, b) ← prepCompare O v x
+      if compareValues a b == .eq then pure (.bool (!isNot))
+      else evalIn O env isNot v anyNull es
 /-- first clause whose condition is true; `none` when no clause applies -/
 def evalCase (O : Oracles) (env : Env) : List (Expr × Expr) → Outcome (Option Value)
   | [] => .ok none
